@@ -72,7 +72,7 @@ static void h_build_descriptor(void)
         {
                 size_t ng = NB() ? 1 : 2, n0 = nondet_size(), n1 = nondet_size();
                 __CPROVER_assume(n0 >= 1 && n0 <= H_NC);
-                if (ng == 1) { n1 = 0; } else { __CPROVER_assume(n1 >= 1 && n0 + n1 <= H_NC); }
+                if (ng == 1) { n1 = 0; } else { __CPROVER_assume(n1 >= 1 && n1 <= H_NC && n0 + n1 <= H_NC); }
                 h_grp[0].name = NULL; h_grp[0].cmd = &h_cmds[0]; h_grp[0].cmd_num = n0; h_grp[0].disable = NB();
                 h_grp[1].name = NULL; h_grp[1].cmd = &h_cmds[n0 < H_NC ? n0 : 0]; h_grp[1].cmd_num = n1; h_grp[1].disable = NB();
                 h_grp_ptrs[0] = &h_grp[0]; h_grp_ptrs[1] = &h_grp[1];
